@@ -22,11 +22,12 @@ import (
 	"github.com/IrineSistiana/mosproxy/internal/upstream"
 	"github.com/miekg/dns"
 	"github.com/quic-go/quic-go"
+	"github.com/quic-go/quic-go/http3"
 )
 
 // fsrv is a fault-scripted server for one scenario: it speaks UDP, TCP (optionally TLS), DoH or DoQ.
 type fsrv struct {
-	kind   string // transport scheme served
+	kind   string       // transport scheme served
 	fault  atomic.Value // current fault: "", "silent", "half", "garbage", "fin", "rst", "stall", "closeafter"
 	addr   string
 	conns  sync.Map
@@ -145,6 +146,72 @@ func (s *fsrv) streamServe(c net.Conn, useTLS bool) {
 	}
 }
 
+// httpHandle is the DoH handler shared by the https (h1/h2) and h3 servers.
+func (s *fsrv) httpHandle(w http.ResponseWriter, r *http.Request) {
+	s.nq.Add(1)
+	if own != nil {
+		// a well-formed request is "dns=<base64url>": anything else means the URL was built from
+		// memory that no longer belonged to the request
+		raw := r.URL.RawQuery
+		bad := !strings.HasPrefix(raw, "dns=")
+		for _, c := range []byte(strings.TrimPrefix(raw, "dns=")) {
+			if !(c >= 'a' && c <= 'z' || c >= 'A' && c <= 'Z' || c >= '0' && c <= '9' || c == '-' || c == '_') {
+				bad = true
+			}
+		}
+		if bad {
+			own.T.Emit("own.poison", "where", "DoH request URL seen by the scripted server")
+		}
+	}
+	switch s.f() {
+	case "silent", "noreply", "half":
+		<-r.Context().Done()
+		return
+	case "garbage":
+		w.Header().Set("Content-Type", "application/dns-message")
+		w.Write([]byte{1, 2, 3})
+		return
+	case "fin", "rst":
+		if s.kind == "h3" {
+			s.killAll()
+			return
+		}
+		if hj, ok := w.(http.Hijacker); ok {
+			c, _, _ := hj.Hijack()
+			c.Close()
+			return
+		}
+		panic(http.ErrAbortHandler)
+	}
+	var b []byte
+	for _, kv := range strings.Split(r.URL.RawQuery, "&") {
+		if strings.HasPrefix(kv, "dns=") {
+			b, _ = base64.RawURLEncoding.DecodeString(kv[4:])
+		}
+	}
+	w.Header().Set("Content-Type", "application/dns-message")
+	w.Write(mkAnswer(b))
+	if s.f() == "closeafter" && s.kind == "h3" {
+		go func() { time.Sleep(20 * time.Millisecond); s.killAll() }()
+	}
+}
+
+// trackingListener records the QUIC connections an http3 server accepts (kill / census).
+type trackingListener struct {
+	*quic.EarlyListener
+	s *fsrv
+}
+
+func (l *trackingListener) Accept(ctx context.Context) (quic.EarlyConnection, error) {
+	c, err := l.EarlyListener.Accept(ctx)
+	if err == nil {
+		l.s.nconn.Add(1)
+		l.s.conns.Store(quic.Connection(c), true)
+		go func() { <-c.Context().Done(); l.s.conns.Delete(quic.Connection(c)) }()
+	}
+	return c, err
+}
+
 func newFsrv(kind string) *fsrv {
 	s := &fsrv{kind: kind}
 	s.fault.Store("")
@@ -231,53 +298,27 @@ func newFsrv(kind string) *fsrv {
 					s.conns.Delete(c)
 				}
 			},
-			Handler: http.HandlerFunc(func(w http.ResponseWriter, r *http.Request) {
-				s.nq.Add(1)
-				if own != nil {
-					// a well-formed request is "dns=<base64url>": anything else means the URL was built from
-					// memory that no longer belonged to the request
-					raw := r.URL.RawQuery
-					bad := !strings.HasPrefix(raw, "dns=")
-					for _, c := range []byte(strings.TrimPrefix(raw, "dns=")) {
-						if !(c >= 'a' && c <= 'z' || c >= 'A' && c <= 'Z' || c >= '0' && c <= '9' || c == '-' || c == '_') {
-							bad = true
-						}
-					}
-					if bad {
-						own.T.Emit("own.poison", "where", "DoH request URL seen by the scripted server")
-					}
-				}
-				switch s.f() {
-				case "silent", "noreply", "half":
-					<-r.Context().Done()
-					return
-				case "garbage":
-					w.Header().Set("Content-Type", "application/dns-message")
-					w.Write([]byte{1, 2, 3})
-					return
-				case "fin", "rst":
-					if hj, ok := w.(http.Hijacker); ok {
-						c, _, _ := hj.Hijack()
-						c.Close()
-						return
-					}
-					panic(http.ErrAbortHandler)
-				}
-				var b []byte
-				for _, kv := range strings.Split(r.URL.RawQuery, "&") {
-					if strings.HasPrefix(kv, "dns=") {
-						b, _ = base64.RawURLEncoding.DecodeString(kv[4:])
-					}
-				}
-				w.Header().Set("Content-Type", "application/dns-message")
-				w.Write(mkAnswer(b))
-			})}
+			Handler: http.HandlerFunc(s.httpHandle)}
 		s.closer = append(s.closer, func() { hs.Close() })
 		go func() {
 			// "stall": accept raw TCP and never start TLS
 			tl := &stallListener{Listener: l, s: s}
 			hs.ServeTLS(tl, "", "")
 		}()
+	case "h3":
+		uc, err := net.ListenUDP("udp", &net.UDPAddr{IP: net.IPv4(127, 0, 0, 1)})
+		if err != nil {
+			panic(err)
+		}
+		s.addr = uc.LocalAddr().String()
+		qt := &quic.Transport{Conn: uc}
+		ql, err := qt.ListenEarly(http3.ConfigureTLSConfig(&tls.Config{Certificates: []tls.Certificate{s.cert}}), &quic.Config{MaxIdleTimeout: 10 * time.Second})
+		if err != nil {
+			panic(err)
+		}
+		h3s := &http3.Server{Handler: http.HandlerFunc(s.httpHandle)}
+		s.closer = append(s.closer, func() { h3s.Close(); ql.Close(); qt.Close(); uc.Close() })
+		go h3s.ServeListener(&trackingListener{EarlyListener: ql, s: s})
 	case "quic":
 		uc, err := net.ListenUDP("udp", &net.UDPAddr{IP: net.IPv4(127, 0, 0, 1)})
 		if err != nil {
@@ -374,6 +415,8 @@ func (s *fsrv) url() string {
 	switch s.kind {
 	case "https":
 		return "https://" + s.addr + "/dns-query"
+	case "h3":
+		return "h3://" + s.addr + "/dns-query"
 	case "udp":
 		return "udp://" + s.addr
 	}
@@ -511,7 +554,7 @@ func faultScenario(kind, fault string, rng *rand.Rand) {
 func modeFault(thorough bool) {
 	onlyEvents = map[string]bool{} // hook and server events are not needed here
 	rng := rand.New(rand.NewSource(seed))
-	kinds := []string{"udp", "tcp", "tcp+pipeline", "tls", "tls+pipeline", "https", "quic"}
+	kinds := []string{"udp", "tcp", "tcp+pipeline", "tls", "tls+pipeline", "https", "quic", "h3"}
 	faults := []string{"refuse", "silent", "noreply", "half", "garbage", "fin", "rst", "stall", "stale", "kill", "sndbuf"}
 	var wg sync.WaitGroup
 	sem := make(chan struct{}, 6)
@@ -526,7 +569,7 @@ func modeFault(thorough bool) {
 			if f == "sndbuf" && !(k == "tcp+pipeline" || k == "tcp") {
 				continue
 			}
-			if (f == "half" || f == "rst") && k == "https" {
+			if (f == "half" || f == "rst") && (k == "https" || k == "h3") {
 				continue
 			}
 			wg.Add(1)
